@@ -87,7 +87,7 @@ def tasks(tier, seed):
             for io, ro in ((2, 0), (4, 0), (4, 2)):
                 if nf**dim <= 300 and not (periodic and nc <= max(io, ro)):
                     T.append(('restrorder', nf, nc, io, ro, periodic, dim))
-    for nf, nc in (((8, 4), (16, 8)) if quick else ((8, 4), (16, 8), (32, 16), (12, 6))):
+    for nf, nc in (((8, 4), (16, 8), (16, 4), (12, 4)) if quick else ((8, 4), (16, 8), (32, 16), (12, 6), (16, 4), (12, 4), (32, 8), (18, 6))):  # (coarsening ratios 2, 3, 4)
         T.append(('ffttransfer', nf, nc, 1))
     for nf, nc in ((8, 4),):  # (12/6 and 16/8 in two dimensions -- 144 x 36 and 256 x 64 unknowns: the query over all band-limited data does not finish in 5 minutes)
         T.append(('ffttransfer', nf, nc, 2))
